@@ -109,6 +109,8 @@ type vfWorld struct {
 	tmplUsed  map[string]bool
 	tmplRows  []string
 	incoming  []string // return URIs seen in main cookies
+	ownCodecs map[string][]securecookie.Codec
+	decodeFallback bool // cookies are read through the deployment's own codec (see codecsFor)
 }
 
 type testingTB interface {
@@ -346,6 +348,42 @@ func (w *vfWorld) candidateNames() []string {
 	return names
 }
 
+// codecsFor returns a codec the harness built ITSELF from the session key (the authentication key is
+// the configured key, the encryption key is derived from it as the deployment documents), so that
+// reading cookies does not go through the code under test.  If that codec cannot read a cookie the
+// deployment has just produced (the key derivation was changed), the deployment's own codecs are used
+// instead and the case says so.
+func (w *vfWorld) codecsFor(key string, inst *TraefikOidc) []securecookie.Codec {
+	if c, ok := w.ownCodecs[key]; ok {
+		return c
+	}
+	block := sha256.Sum256([]byte("traefikoidc session cookie encryption|" + key))
+	own := securecookie.CodecsFromPairs([]byte(key), block[:])
+	plain := securecookie.CodecsFromPairs([]byte(key))
+	chosen := vfInstanceCodecs(inst)
+	if cookies, err := vfMintSession(vfSessionManager(inst), false, 0, "probe@example.com", "", "", "", "", "", ""); err == nil {
+		for _, c := range cookies {
+			m, _, _ := vfCookieNames()
+			if c.Name != m {
+				continue
+			}
+			v := map[interface{}]interface{}{}
+			if securecookie.DecodeMulti(c.Name, c.Value, &v, own...) == nil {
+				chosen = own
+			} else if securecookie.DecodeMulti(c.Name, c.Value, &v, plain...) == nil {
+				chosen = plain // signed but not encrypted: still read independently of the code under test
+			} else {
+				w.decodeFallback = true
+			}
+		}
+	}
+	if w.ownCodecs == nil {
+		w.ownCodecs = map[string][]securecookie.Codec{}
+	}
+	w.ownCodecs[key] = chosen
+	return chosen
+}
+
 // decodeCookie finds the (key, name) under which a cookie value decodes; keyid 1 = the deployment, 2 = the foreign one
 func (w *vfWorld) decodeCookie(name, value string) (keyid int, asName string, vals map[interface{}]interface{}, ok bool) {
 	try := func(codecs []securecookie.Codec, n string) (map[interface{}]interface{}, bool) {
@@ -361,10 +399,10 @@ func (w *vfWorld) decodeCookie(name, value string) (keyid int, asName string, va
 	}
 	deps := []dep{}
 	if len(w.insts) > 0 {
-		deps = append(deps, dep{1, vfInstanceCodecs(w.insts[0].t)})
+		deps = append(deps, dep{1, w.codecsFor(vfKeyA, w.insts[0].t)})
 	}
 	if w.foreign != nil {
-		deps = append(deps, dep{2, vfInstanceCodecs(w.foreign)})
+		deps = append(deps, dep{2, w.codecsFor(vfKeyB, w.foreign)})
 	}
 	names := append([]string{name}, w.candidateNames()...)
 	for _, d := range deps {
